@@ -377,3 +377,19 @@ func (s Schema) Features() []string {
 }
 
 func (s Schema) String() string { return fmt.Sprintf("%s", strings.Join(s.DDL(StyleAtlas), ";\n")) }
+
+// NonWordNames reports whether any table or column name is not \w+.
+func (s Schema) NonWordNames() bool {
+	bad := func(n string) bool { return strings.ContainsAny(n, " -.") }
+	for _, t := range s.Tables {
+		if bad(t.Name) {
+			return true
+		}
+		for _, c := range t.Cols {
+			if bad(c.Name) {
+				return true
+			}
+		}
+	}
+	return false
+}
